@@ -292,8 +292,9 @@ class UnitRegistry:
         # the singletons
         self.__dict__.update(state)
         # in place: a shallow copy (copy.copy) keeps sharing its table
+        state = {}
         for k, v in list(self.lut.items()):
-            dims = _intern_dimensions(v[1])
+            dims = _intern_dimensions(v[1], state)
             if dims is not v[1]:
                 self.lut[k] = (v[0], dims) + tuple(v[2:])
 
@@ -384,7 +385,7 @@ def _lookup_unit_symbol(symbol_str, unit_symbol_lut):
     )
 
 
-def _intern_dimensions(dims):
+def _intern_dimensions(dims, state=None):
     """Replace dimension symbols that merely *equal* the library's base
     dimensions (as produced by unpickling or copying) with the singletons
     themselves: the angle, temperature and logarithmic guards test identity.
@@ -399,22 +400,26 @@ def _intern_dimensions(dims):
         if sym == base_dim and sym is not base_dim
     }
     if swaps:
-        if dims.args:
+        if dims.args and not (state and state.get("cleared")):
             # sympy's constructors are memoised by *equality*: rebuilding a
             # compound dimension could hand back the equal object (made while
-            # unpickling) that still holds the foreign symbols
+            # unpickling) that still holds the foreign symbols.  Once per
+            # table (``state``) is enough: nothing foreign is built meanwhile
             clear_cache()
+            if state is not None:
+                state["cleared"] = True
         dims = dims.xreplace(swaps)
     return dims
 
 
 def _correct_old_unit_registry(data, sympify=False):
     lut = {}
+    state = {}
     for k, v in data.items():
         unsan_v = list(v)
         if sympify:
             unsan_v[1] = cached_sympify(v[1])
-        unsan_v[1] = _intern_dimensions(unsan_v[1])
+        unsan_v[1] = _intern_dimensions(unsan_v[1], state)
         if len(unsan_v) == 4:
             # old unit registry so we need to add SI-prefixability to the registry
             # entry, correct the base_value to be in MKS units, and swap dimensions to
